@@ -71,6 +71,30 @@ def functions(src):
         k = p_close + 1
         mm = re.match(r"\s*(const\s*)?(noexcept\s*)?\{", src_nc[k:])
         if not mm:
+            # constructor initialiser list:  ) : Base(args), member_(x) {
+            mi = re.match(r"\s*:(?!:)", src_nc[k:])
+            if not mi:
+                continue
+            j, depth = k + mi.end(), 0
+            while j < len(src_nc):
+                ch = src_nc[j]
+                if ch == "(":
+                    depth += 1
+                elif ch == ")":
+                    depth -= 1
+                elif ch == "{" and depth == 0:
+                    break
+                elif ch == ";" and depth == 0:
+                    j = -1
+                    break
+                j += 1
+            if j < 0 or j >= len(src_nc):
+                continue
+            b_open = j
+            b_close = match_brace(src_nc, b_open)
+            if b_close < 0:
+                continue
+            yield name, src_nc[p_open + 1:p_close], src_nc[b_open + 1:b_close], src_nc.count("\n", 0, m.start()) + 1
             continue
         b_open = k + mm.end() - 1
         b_close = match_brace(src_nc, b_open)
